@@ -60,6 +60,12 @@ class W:
         if t == NONE: return z3.BoolVal(True)
         if isinstance(t, OptT): return opt_is_none(t, self.z)
         return z3.BoolVal(False)
+    def opt_eq(self, z):
+        """value is not None and equals z (robust against the static type being None / T / Optional[T])"""
+        t = self.t
+        if t == NONE: return z3.BoolVal(False)
+        if isinstance(t, OptT): return z3.And(z3.Not(opt_is_none(t, self.z)), opt_val(t, self.z) == z)
+        return self.z == z
     def some(self):
         t = self.t
         if isinstance(t, OptT): return self._w(V(t.base, opt_val(t, self.z)))
